@@ -34,6 +34,18 @@ class Clock:
     def sleep(self, s):
         self.now += int(s * 1e9)
 
+    # the monotonic clock is another clock: it counts from boot, decades behind the wall clock
+    BOOT = 1_000_000_000_000 - 3_600_000_000_000 // 1000
+
+    def monotonic_ns(self):
+        return self.now - self.BOOT
+
+    def monotonic(self):
+        return (self.now - self.BOOT) / 1e9
+
+    def perf_counter_ns(self):
+        return self.now - self.BOOT
+
 
 CLOCK = Clock()
 for m in (comms, bridge_mod, executor_mod):
